@@ -5,7 +5,7 @@ from .gen import G, hx, mutate, pad_image
 from .props import (Prop, PROPS, kind_of, toks, entry_of, input_of, member_type, ok_str, err_str, ser, view_of,
                     gen_parse_inputs, gen_parse_mixed, gen_builds, ALL_LEAVES, ENTRY_MIN, ENTRY_PT, PT_ENTRY,
                     canon_fir_view, canon_fir_bytes, writes_of, size_n, entry_for_member, has_bad_token, perr_of,
-                    hdr_of_view, classes_of, big_members, sdes_pad_sweep, carry_tiles, rpsi_pb_sweep, fmt_sweep,
+                    hdr_of_view, classes_of, big_members, sdes_pad_sweep, carry_tiles, version_tiles, rpsi_pb_sweep, fmt_sweep,
                     systematic_members)
 
 VARIANT_ENTRY = {'App': 'app', 'Bye': 'bye', 'Rr': 'rr', 'Sdes': 'sdes', 'Sr': 'sr', 'Tfb': 'tfb', 'Pfb': 'pfb',
@@ -173,6 +173,12 @@ class C10(Prop):
 
 def consistent_tokens(b, chunks):
     """accepted but ambiguous: items must be contiguous type/len/value triples of the bytes"""
+    try:
+        return _consistent_tokens(b, chunks)
+    except (TypeError, IndexError, ValueError, AttributeError):
+        return 'an accessor of an accepted item did not return a value (not a tokenisation of the bytes)'
+
+def _consistent_tokens(b, chunks):
     pos = 4
     for ch in chunks:
         ssrc = S.num(ch[0])
@@ -250,7 +256,7 @@ class C11(Prop):
             elif c < 0.30:
                 b = b''
             out.append('parse compound %s' % hx(b))
-        out += [l for l in carry_tiles(g) if l.startswith('parse compound')]
+        out += [l for l in carry_tiles(g) if l.startswith('parse compound')] + version_tiles(g)
         # a tile with the largest length field (0xffff = 262144 bytes) alone and between two packets
         big = bytes([0x80 | g.r.randrange(32), 204, 0xff, 0xff]) + g.rawbytes(8) + bytes(262144 - 12)
         out.append('parse compound %s' % hx(big))
@@ -622,6 +628,18 @@ class C14(Prop):
         if kind_of(line) != 'build' or member_type(line) != 'compound':
             return [], None
         return (['build e0:aa,e0:55 ' + m for m in split_members(line)], None)
+    def oracle(self, line, impl, model):
+        # the same compound built with a size / padding query after every add_packet announces and writes the same
+        fails = []
+        if 'qsize' in impl and impl.get('qsize') != impl.get('size'):
+            fails.append('built with a size query after every add_packet the compound announces %s, without queries %s'
+                         % (impl.get('qsize'), impl.get('size')))
+        if 'qwrites' in impl:
+            q, w = writes_of(impl.get('qwrites')), writes_of(impl.get('writes'))
+            if q and w and q[0] != w[0]:
+                fails.append('built with a size query after every add_packet the compound writes %s %s, without queries %s %s'
+                             % (q[0][0], (q[0][1] or b'').hex()[:120], w[0][0], (w[0][1] or b'').hex()[:120]))
+        return fails
     def group_oracle(self, recs):
         by = {l: a for l, a, m in recs}
         bym = {l: m for l, a, m in recs}
